@@ -16,6 +16,12 @@ CLAIMED = {
             'reader copies; no second consuming attempt after a failed binary scope. Necessary conditions for "a skip consumes exactly '
             'that value"; neighbour values themselves are not decided.',
             'CFG path enumeration with event balance (consume vs count) + decision tables over the first-byte domain', '§5 C05'),
+    'C06': ('other',
+            'Abstract interpretation of both MsgPack writers over value/length intervals partitioned at every compared constant, against an '
+            'oracle written from the MessagePack specification: format code, length-field width, minimal encoded size, big-endian payload '
+            'of the argument itself, oversize => exception, timestamp headers and field layout; twin equality of the two writers; floor-based '
+            'seconds/nanoseconds split. Exhaustive over the partition cells; payload bit patterns of floats are not decided.',
+            'decision tables by abstract interpretation over an interval partition, compared with a hand-written spec oracle', '§5 C06'),
     'C07': ('other',
             'Abstract interpretation of both MsgPack readers over the exact domain of all 256 first bytes against an oracle written from the '
             'MessagePack specification: accept sets, length-field and payload widths, signedness, embedded values, ext type-byte offsets, '
